@@ -143,6 +143,31 @@ def h_empirical(ctx, kind, q, units, nT, S_elements):
         ctx.eq('%s in %s and %s differ by the R ratio' % (q, u0, u1), a * R_expected(u1, M), b * R_expected(u0, M))
 
 
+def h_two_species(ctx, kind):
+    """history: per-mass values of two species with the same element set but different counts,
+    requested one after the other, each use their own molar mass"""
+    T = ctx.real('T', 200, 3500)
+    sps = []
+    for tag in ('one', 'two'):
+        counts = {k: ctx.real('n_%s_%s' % (tag, k), 0.5, 20) for k in ELEMENTS}
+        if kind == 'StatMech':
+            from pmutt.statmech import StatMech
+            sp = StatMech(name=tag, trans_model=StubMode(ctx, tag + '.trans'), elements=dict(counts))
+        else:
+            kw = dict(name=tag, elements=dict(counts))
+            from pmutt.empirical.nasa import Nasa
+            sp = Nasa(T_low=200., T_mid=1000., T_high=3500., a_low=np_array(ctx, [ctx.real('%s.al%d' % (tag, i), -10, 10) for i in range(7)]),
+                      a_high=np_array(ctx, [ctx.real('%s.ah%d' % (tag, i), -10, 10) for i in range(7)]), **kw)
+        sps.append((sp, molar_mass(counts)))
+    from pmutt import constants as c
+    for rnd in (1, 2):
+        for sp, M in sps:
+            ctx.eq('Cp(J/g/K) of species %s (round %d) uses its own molar mass' % (sp.name, rnd), sp.get_Cp(T=T, units='J/g/K'),
+                   sp.get_CpoR(T=T) * c.R('J/mol/K') / M)
+            ctx.eq('H(kJ/kg) of species %s (round %d) uses its own molar mass' % (sp.name, rnd), sp.get_H(T=T, units='kJ/kg'),
+                   sp.get_HoRT(T=T) * c.R('kJ/mol/K') * T / (M / 1000))
+
+
 class StubMode:
     def __init__(self, ctx, name):
         self.c = {}
@@ -224,11 +249,11 @@ def h_mode(ctx, kind, q, units):
         if q in ('Cv', 'Cp', 'S'):
             nd = _pass_expected_arguments(getattr(mode, 'get_%soR' % q), T=T, P=P)
             dim = getattr(mode, 'get_' + q)(units=u, T=T, P=P)
-            ctx.eq('%s.%s(%s) = dimensionless x R' % (kind, q, u), dim, _q(ctx, nd) * _q(ctx, c.R(u)))
+            ctx.eq('%s.%s(%s) = dimensionless x R' % (kind, q, u), dim, _q(ctx, nd) * _q(ctx, c.R(u)), rel=1e-12)
         else:
             nd = _pass_expected_arguments(getattr(mode, 'get_%soRT' % q), T=T, P=P)
             dim = getattr(mode, 'get_' + q)(units=_strip_K(u), T=T, P=P)
-            ctx.eq('%s.%s(%s) = dimensionless x R x T' % (kind, q, u), dim, _q(ctx, nd) * _q(ctx, c.R(u)) * T)
+            ctx.eq('%s.%s(%s) = dimensionless x R x T' % (kind, q, u), dim, _q(ctx, nd) * _q(ctx, c.R(u)) * T, rel=1e-12)
 
 
 def h_reaction(ctx, kind, form, q, units, rev):
@@ -289,6 +314,8 @@ def groups(tier):
                 salt += 1
                 g.append(dict(name='StatMech/%s/verbose=%s/use_references=%s' % (q, verbose, use_refs), harness=h_statmech,
                               params=dict(q=q, units=pick_units(tier, salt), verbose=verbose, use_refs=use_refs)))
+    for kind in ('Nasa', 'StatMech'):
+        g.append(dict(name='two-species-same-elements/%s' % kind, harness=h_two_species, params=dict(kind=kind)))
     for zpe in (False, True):
         salt += 1
         g.append(dict(name='StatMech/E/include_ZPE=%s' % zpe, harness=h_statmech_E, params=dict(units=pick_units(tier, salt), zpe=zpe)))
